@@ -147,7 +147,7 @@ def evaluate_z3_string_value(expr: z3.ExprRef, _) -> Maybe[Z3EvalResult]:
     if not z3.is_string_value(expr):
         return Nothing
     expr: z3.StringVal
-    return Some(((), expr.as_string().replace(r"\u{}", "\x00")))
+    return Some(((), smt_string_val_to_string(expr)))
 
 
 def evaluate_z3_int_value(expr: z3.ExprRef, _) -> Maybe[Z3EvalResult]:
@@ -847,17 +847,40 @@ def smt_expr_to_str(  # noqa: C901
     raise NotImplementedError(f"{str(f)} ({type(f).__name__})")
 
 
+def smt_escape_non_ascii(smt_text: str) -> str:
+    r"""
+    Replaces all non-ASCII characters in the SMT-LIB text `smt_text` by SMT-LIB unicode
+    escapes `\u{...}`. The Z3 parser reads its input byte-wise; a non-ASCII
+    character inside a string literal would otherwise become one character per UTF-8
+    byte.
+
+    >>> smt_escape_non_ascii('(= x "ä")')
+    '(= x "\\u{e4}")'
+
+    :param smt_text: The SMT-LIB text to escape.
+    :return: An ASCII-only version of `smt_text` with the same meaning.
+    """
+
+    return "".join(
+        char if ord(char) < 128 else f"\\u{{{ord(char):x}}}" for char in smt_text
+    )
+
+
 def smt_string_val_to_string(smt_val: z3.StringVal) -> str:
     r"""
-    Converts `smt_val` to its string representation. Handles the special case of
-    null-bytes characters in `smt_val`: Those are represented as `\u{}` by `as_string()`
-    and get converted to `\x00`.
+    Converts `smt_val` to its string representation. Characters that `as_string()`
+    represents by SMT-LIB unicode escapes (`\u{}` for the null byte, `\u{20ac}` for
+    characters above Latin-1) are converted back to the characters they denote.
 
     :param smt_val: The `z3.StringVal` to convert to a Python string.
     :return: The Python string representation of `smt_val`.
     """
 
-    return smt_val.as_string().replace(r"\u{}", "\x00")
+    return re.sub(
+        r"\\u\{([0-9a-fA-F]*)\}",
+        lambda match: chr(int(match.group(1) or "0", 16)),
+        smt_val.as_string(),
+    )
 
 
 def parent_relationships_in_z3_expr(
